@@ -509,11 +509,13 @@ func (fc *FCtx) run() {
 		}
 	}
 	// panic exit of a defer-recover function: arbitrary ghost state, handler decides the results
-	if fc.recoverLit != nil {
-		ps := fc.entry.clone()
-		for _, g := range fc.ghostNames(ps) {
-			gv := ps.ghost[g]
-			ps.ghost[g] = Val{T: fc.U.Fresh("gp_"+g, gv.S), S: gv.S, GoT: gv.GoT}
+	if fc.recoverLit != nil && len(fc.panicStates) > 0 {
+		// the recover handler starts from the state at one of the points where the body may panic (an explicit
+		// panic, a failed run-time check, a callee flagged may_panic after an arbitrary part of its effect)
+		ps := fc.merge(fc.panicStates)
+		if ps == nil {
+			ps = fc.entry.clone()
+			fc.kill(ps)
 		}
 		for _, r := range fr.results {
 			if r.Name() != "" && r.Name() != "_" {
@@ -556,7 +558,7 @@ func (fc *FCtx) run() {
 			}
 			fr.returns = append(fr.returns, &retState{st: s, vals: vals, ord: len(fc.retOrd) + 1})
 		}
-		fc.note("defer-recover: a panic anywhere in the body is modelled as an exit with arbitrary ghost state followed by the recover handler")
+		fc.note("defer-recover: the handler runs from the states at the points where the body may panic (explicit panics, failed run-time checks, callees flagged may_panic with their frame arbitrary); callees not flagged may_panic and external calls are assumed not to panic")
 	}
 	// postconditions at each exit
 	rn := resultNames(sig, fc.C)
